@@ -22,6 +22,7 @@ NEVER = 987654321
 _G = {}
 
 EVENT_WRITES = ("ins1", "bulk2", "bulk49", "bulk50", "bulk51", "mix", "ups", "ups2", "rep", "repl", "del")
+SINGLE_EVENT_WRITES = ("ins1", "rep", "repl", "del", "insB2", "ups")
 BUCKET_OPS = ("mkB2", "updB2", "delB2", "updB1")
 READS = ("get", "get_id", "count")
 FAULT_OPS = ("delB2x", "updB2x", "staleB2bulk", "badbulk")  # operations that must raise and change nothing
@@ -399,6 +400,11 @@ def oracle_c18(w, op, pending, flush_before):
     # has data at risk that is 0 s old -- not a violation (an earlier version of this oracle measured
     # from the flush before the op and raised a false alarm on insert_many([upsert, insert])).
     age = K.VNOW[0] - w.last_flush
+    if op in SINGLE_EVENT_WRITES:
+        # a SINGLE event write must ITSELF be durable when it returns: a commit issued inside the
+        # operation but before its own statement (seeded: delete / replace_last flushing first) does
+        # not count, so for these the age is measured from the flush known when the op was called
+        age = K.VNOW[0] - flush_before
     if (op in EVENT_WRITES or op == "insB2") and age > 11.0 and pending:
         probs.append(("old-write-not-flushed", f"{op} returned {age:.0f} virtual seconds after the previous flush and its write is not durable ({pending} elementary writes pending)"))
     return probs
